@@ -27,7 +27,13 @@ inline int g_user = 0;
   void mV2(int, int) { ++g_calls; }                 \
   int mI0() { ++g_calls; return 3; }                \
   int mI1(int) { ++g_calls; return 3; }             \
-  int mI2(int, int) { ++g_calls; return 3; }
+  int mI2(int, int) { ++g_calls; return 3; }           \
+  void kV0() const { ++g_calls; }                   \
+  void kV1(int) const { ++g_calls; }                \
+  void kV2(int, int) const { ++g_calls; }           \
+  int kI0() const { ++g_calls; return 3; }          \
+  int kI1(int) const { ++g_calls; return 3; }       \
+  int kI2(int, int) const { ++g_calls; return 3; }
 
 // trackable directly; its methods are INHERITED from a non-trackable base, some of its methods (b*) are INHERITED from a non-trackable base, so that &TD::bV0 has type
 // void (MB::*)(): mem_fun must decide tracking from the class of the bound object, not of the method
@@ -39,6 +45,18 @@ struct MB
   int bI0() { ++g_calls; return 3; }
   int bI1(int) { ++g_calls; return 3; }
   int bI2(int, int) { ++g_calls; return 3; }
+  // the const / volatile / const volatile overloads of mem_fun, again with inherited methods
+#define VS_CV(P, Q)                                   \
+  void P##V0() Q { ++g_calls; }                       \
+  void P##V1(int) Q { ++g_calls; }                    \
+  void P##V2(int, int) Q { ++g_calls; }               \
+  int P##I0() Q { ++g_calls; return 3; }              \
+  int P##I1(int) Q { ++g_calls; return 3; }           \
+  int P##I2(int, int) Q { ++g_calls; return 3; }
+  VS_CV(bc, const)
+  VS_CV(bv, volatile)
+  VS_CV(bw, const volatile)
+#undef VS_CV
 };
 struct TD : MB, sigc::trackable
 {
